@@ -123,6 +123,7 @@ def check(ctx: Ctx):
     tracking.check_overlap_matcher(ctx, rules=("CONT",))
     tracking.check_distance_matcher(ctx, rules=("GREEDY", "INDEX", "CUTOFF"))
     tracking.check_main_loop(ctx, rules=("FLOW",))
+    tracking.check_track_append(ctx, rules=("NONETEST",))
     ctx.expect("METRIC", 4)
     ctx.expect("STRICT", 1)
     ctx.expect("CONT", 1)
@@ -130,5 +131,6 @@ def check(ctx: Ctx):
     ctx.expect("INDEX", 4)
     ctx.expect("CUTOFF", 2)
     ctx.expect("FLOW", 3)
+    ctx.expect("NONETEST", 1)
     ctx.trust("GridBase.distance is the grid's periodic metric; scipy cdist applies the metric to every pair")
     ctx.assume("optimality/uniqueness of the matching for actual motions is not decided")
